@@ -278,7 +278,7 @@ pub enum BrancherSpec {
 
 impl BrancherSpec {
     pub fn random_sched(rng: &mut Rng) -> BrancherSpec {
-        let mode = *rng.pick(&[0u8, 0, 0, 1, 2, 3, 3, 4]);
+        let mode = *rng.pick(&[0u8, 0, 0, 1, 1, 2, 3, 3, 4]);
         BrancherSpec::Sched { mode, seed: rng.next_u64() >> 1 }
     }
     pub fn random_builtin(rng: &mut Rng) -> BrancherSpec {
